@@ -38,7 +38,19 @@ def run(ctx):
                              ("numpy to_rhophietatau", a, lambda: a.to_rhophietatau()), ("awkward to_Vector4D", A, lambda: A.to_Vector4D()),
                              ("numpy asarray", a, lambda: numpy.asarray(a)), ("numpy a[0]", a, lambda: a[0]), ("awkward A[0]", A, lambda: A[0]),
                              ("numpy negative", a, lambda: -a), ("awkward negative", A, lambda: -A), ("numpy scale(-2)", a, lambda: a * -2.0), ("awkward scale(-2)", A, lambda: A * -2.0),
-                             ("numpy view momentum", a, lambda: a.view(type(a)))]
+                             ("numpy view momentum", a, lambda: a.view(type(a))),
+                             # scalar-valued ufuncs of a vector (abs, square, sqrt, cbrt, power with 2 / 3 / 0.5 / array exponents)
+                             ("numpy abs", a, lambda: abs(a)), ("numpy square", a, lambda: numpy.square(a)), ("numpy sqrt", a, lambda: numpy.sqrt(a)),
+                             ("numpy cbrt", a, lambda: numpy.cbrt(a)), ("numpy **2", a, lambda: a ** 2), ("numpy **3", a, lambda: a ** 3),
+                             ("numpy **0.5", a, lambda: a ** 0.5), ("numpy power 2", a, lambda: numpy.power(a, 2)), ("numpy power 3", a, lambda: numpy.power(a, 3)),
+                             ("numpy power array", a, lambda: numpy.power(a, numpy.array([[2.0, 3.0], [0.5, 1.0]]))),
+                             ("awkward abs", A, lambda: abs(A)), ("awkward **2", A, lambda: A ** 2), ("awkward **3", A, lambda: A ** 3),
+                             ("awkward power 3", A, lambda: numpy.power(A, 3)), ("awkward sqrt", A, lambda: numpy.sqrt(A)),
+                             ("object abs", o, lambda: abs(o)), ("object **2", o, lambda: o ** 2), ("object **3", o, lambda: o ** 3),
+                             ("object power 3", o, lambda: numpy.power(o, 3)), ("object sqrt", o, lambda: numpy.sqrt(o)),
+                             ("numpy *=-like scale", a, lambda: numpy.multiply(a, 2.0)), ("numpy true_divide", a, lambda: numpy.true_divide(a, 2.0)),
+                             ("numpy unit", a, lambda: a.unit()), ("awkward unit", A, lambda: A.unit()),
+                             ("numpy to_beta3", a, lambda: a.to_beta3() if dim == 4 else None), ("numpy boostX", a, lambda: a.boostX(beta=0.3) if dim == 4 else None)]
                     for nm, operand, f in calls:
                         n += 1
                         before = AH.snapshot(operand)
